@@ -202,7 +202,11 @@ func (w *worker) blameSearch(st *stats, c caseDef, canon shape.Shape, path, kind
 		comps = append(comps, comp{flagString(url.Values{k: c.Flags[k]}), func(x *caseDef) { x.Flags[k] = c.Flags[k] }})
 	}
 	if c.Presign {
-		comps = append(comps, comp{"already-signed-by-relic", func(x *caseDef) { x.Presign = true }})
+		if c.PresignBig {
+			comps = append(comps, comp{"already-signed-by-relic-with-a-ten-certificate-chain", func(x *caseDef) { x.Presign, x.PresignBig = true, true }})
+		} else {
+			comps = append(comps, comp{"already-signed-by-relic", func(x *caseDef) { x.Presign = true }})
+		}
 	}
 	if c.ShapeIdx != 0 {
 		comps = append(comps, comp{c.Shape.Class, func(x *caseDef) { x.Shape, x.ShapeIdx = c.Shape, c.ShapeIdx }})
@@ -214,7 +218,7 @@ func (w *worker) blameSearch(st *stats, c caseDef, canon shape.Shape, path, kind
 	{
 		// does the baseline itself show it? then nothing specific to this case is to blame
 		x := c
-		x.Shape, x.ShapeIdx, x.Presign = canon, 0, false
+		x.Shape, x.ShapeIdx, x.Presign, x.PresignBig = canon, 0, false, false
 		x.Key, x.Hash, x.Flags = keyRSA, crypto.SHA256, url.Values{}
 		if w.reproducesMemo(st, x, path, kind) {
 			return canon.Class
@@ -235,7 +239,7 @@ func (w *worker) blameSearch(st *stats, c caseDef, canon shape.Shape, path, kind
 				continue
 			}
 			x := c
-			x.Shape, x.ShapeIdx, x.Presign = canon, 0, false
+			x.Shape, x.ShapeIdx, x.Presign, x.PresignBig = canon, 0, false, false
 			x.Key, x.Hash, x.Flags = keyRSA, crypto.SHA256, url.Values{}
 			var names []string
 			for i := 0; i < n; i++ {
@@ -461,6 +465,12 @@ func main() {
 			for i, sh := range shapes {
 				for _, ps := range presignModes {
 					runCase(t, canon, mk(sh, i, ps, keyRSA, crypto.SHA256, url.Values{}, "inplace"))
+				}
+				if !t.NoPresign && !t.PGP {
+					// ... and its twin whose earlier signature is larger than the new one
+					c := mk(sh, i, true, keyRSA, crypto.SHA256, url.Values{}, "inplace")
+					c.PresignBig = true
+					runCase(t, canon, c)
 				}
 			}
 			// (D) every shape x each single non-default flag value x {rsaA, SHA-256}, in place
